@@ -3,7 +3,7 @@
 UNIT_RLIMIT = {}      # unit -> --rlimit
 UNIT_TIMEOUT = {}     # unit -> seconds
 UNIT_EXPECT = {       # unit -> minimum number of verified functions on the unchanged tree (vacuity guard)
-    "core": 31,
+    "core": 31, "add": 29, "kernels": 79, "addmul": 71,
 }
 
 COMMON_TRUST = [
@@ -37,5 +37,33 @@ PROPS = {
                     "Kani re-checks every entry point (methods, six operator shapes, Sum) per width against a ripple-carry oracle and supplies counterexamples",
         trusted=COMMON_TRUST + ["std Iterator::fold / copied (Sum is checked by Kani on slices of length <= 3 only)"],
         not_decided=["Sum over iterators longer than 3 (follows by induction from wrapping_add's contract; the induction over std's fold is not mechanised)"],
+    ),
+    "C15": dict(
+        level="proof",
+        level_text="Verus proves, for all slice lengths and contents, the exact integer contracts (result limbs plus carry/borrow word, or overflow flag) of adc, sbb, adc_n, sbb_n, "
+                   "mac, mul_nx1, addmul_nx1, submul_nx1, cmp, the DoubleWord helpers and the general addmul (zero trimming, sliding window, truncation) on the functions re-extracted from /repo; "
+                   "Kani proves the linear kernels (adc_n, sbb_n, add_nx1, shifts, cmp) per length and supplies counterexamples",
+        level_note="assumed in Verus: add_nx1's contract (early return inside an iter_mut loop; discharged per length <= 6 by Kani), slice length stability axiom, "
+                   "core integer specs (u64::overflowing_add/sub, wrapping_neg, i8::from(bool), cmp::min); shift_left_small/shift_right_small and add_nx1 are decided by Kani only (lengths 0,1,3,6: complete per length); "
+                   "addmul_n's unrolled kernels addmul_1..4 are private (see unit addmul_n)",
+        technique="deductive contracts (Verus, all lengths) + Kani per-length contract harnesses",
+        units=["kernels", "addmul"],
+        kani=dict(
+            features=None,
+            quick=["c15::c15_adc_sbb_n0", "c15::c15_adc_sbb_n1", "c15::c15_adc_sbb_n3", "c15::c15_adc_sbb_n6",
+                   "c15::c15_add_nx1_n0", "c15::c15_add_nx1_n1", "c15::c15_add_nx1_n3", "c15::c15_add_nx1_n6",
+                   "c15::c15_shift_n0", "c15::c15_shift_n1", "c15::c15_shift_n3", "c15::c15_shift_n6",
+                   "c15::c15_cmp_n0", "c15::c15_cmp_n1", "c15::c15_cmp_n4", "c15::c15_nx1_n0"],
+            thorough=["c15::c15_adc_sbb_n0", "c15::c15_adc_sbb_n1", "c15::c15_adc_sbb_n3", "c15::c15_adc_sbb_n6", "c15::c15_adc_sbb_n10",
+                   "c15::c15_add_nx1_n0", "c15::c15_add_nx1_n1", "c15::c15_add_nx1_n3", "c15::c15_add_nx1_n6",
+                   "c15::c15_shift_n0", "c15::c15_shift_n1", "c15::c15_shift_n3", "c15::c15_shift_n6",
+                   "c15::c15_cmp_n0", "c15::c15_cmp_n1", "c15::c15_cmp_n4", "c15::c15_cmp_n10", "c15::c15_nx1_n0",
+                   "c15::c15_mul_nx1_n1", "c15::c15_addmul_nx1_n1", "c15::c15_submul_nx1_n1"],
+            bounds="per fixed slice length: all contents, loops closed by the length (complete for that length); word multiplies only at length 1",
+        ),
+        explanation="every kernel of ruint::algorithms named by the property carries a Verus contract over lvr() = little-endian limb value; addmul's contract is the property's sentence "
+                    "(value modulo 2^(64 len) and flag <=> true sum does not fit)",
+        trusted=COMMON_TRUST,
+        not_decided=["shift_left_small / shift_right_small and add_nx1 for slice lengths other than 0,1,3,6 (Kani per length only)"],
     ),
 }
